@@ -23,8 +23,8 @@ NUMBERINGS = ('seq', 'gaps', 'offset')
 RESIDUES = ('one', 'two', 'three')
 NOISES = ('none', 'comments', 'preproc', 'spacing', 'trailing', 'repeat')
 ELEMS = 'CNOHS'
-BIG_N = (998, 999, 1000, 1001, 3000)
-BIG_FAMILIES = ('chain', 'revchain', 'star', 'comb', 'joined', 'notjoined')
+BIG_N = (501, 998, 999, 1000, 1001, 3000)
+BIG_FAMILIES = ('chain', 'revchain', 'star', 'comb', 'joined', 'notjoined', 'ring_tail2', 'lone_first')
 ATTACHED = ('moleculetype', 'atoms', 'bonds', 'constraints', 'pairs')
 TAILS = (' ; note', ' ;', ' ; a ; b', ';7 8 tight', ' ; 1 2', ' ;;')
 
@@ -72,11 +72,13 @@ def assignments(e, full_upto=4, dev=2):
 
 
 def bond_tokens(sec, a, b):
+    # the function-type column varies (bonds 1/2/6, constraints 1/2, pairs 1/2): every listed pair is an edge
+    # of the graph whatever its function type
     if sec == 0:
-        return [str(a), str(b), '1', '0.153', '1000.0']
+        return [str(a), str(b), ('1', '2', '6')[(a + b) % 3], '0.153', '1000.0']
     if sec == 1:
-        return [str(a), str(b), '1', '0.153']
-    return [str(a), str(b), '1']
+        return [str(a), str(b), ('1', '2')[(a + b) % 2], '0.153']
+    return [str(a), str(b), ('1', '2')[(a + b) % 2]]
 
 
 def render(n, edges, assign, num='seq', res='one', order=(0, 1, 2), noise='none', attached=None, indented=None):
@@ -209,6 +211,12 @@ def big_graph(fam, n):
         e = en.caterpillar(n)
         spine = (n + 1) // 2
         a = [0 if max(p) < spine else 1 for p in e]
+    elif fam == 'ring_tail2':             # a ring over all atoms but the last two, which have no bond at all
+        e = [(i, i + 1) for i in range(n - 3)] + [(n - 3, 0)]
+        a = [k % 2 for k in range(len(e))]
+    elif fam == 'lone_first':             # the first atom has no bond, the rest is a chain
+        e = [(i, i + 1) for i in range(1, n - 1)]
+        a = [0] * len(e)
     else:
         e = [(i, i + 1) for i in range(h - 1)] + [(i, i + 1) for i in range(h, n - 1)]
         a = [0] * len(e)
@@ -229,8 +237,8 @@ class C15(Check):
                  'read_topology / MoleculeTop / are_connected / copy and by an independent reference reader')
     level_text = ('every labelled simple graph on 1..4 (quick) / 1..5 (thorough) atoms, with every assignment of its '
                   'edges to bonds/constraints/pairs (at most 2 edges off [ bonds ] beyond 4 edges), 3 numberings, '
-                  '3 residue layouts, 3 section orders and 6 noise templates, and 6 large families at 5 sizes up to '
-                  '3000 atoms are rendered and read by the real code, plus one file per typed section with a comment glued to '
+                  '3 residue layouts, 3 section orders and 6 noise templates, and 8 large families (incl. unbonded atoms at the very end / start) at 6 sizes from 501 up to '
+                  '3000 atoms are rendered and read by the real code, plus a sequence of 6 different topologies written to one path and read by path, one file per typed section with a comment glued to '
                   'the last token (`1 2 1;c`) and one with indented directives; a coverage statement over that finite space')
     level_note = ('trusted: the reference reader mcx/ref/itp.py (self-tested), the graph enumerators; each file is loaded '
                   'once by MoleculeTop and the value read_topology returned is recorded by a pass-through wrapper at that '
@@ -244,6 +252,24 @@ class C15(Check):
     assumptions = ['files are rendered from 6 noise templates; other layouts of comments / preprocessor lines are not covered',
                    'atom numberings: 1..n, increasing with gaps (10, 20, 35, 55, 80), offset 101.., and n..1 for the '
                    'reversed large chain']
+
+    def _pathseq(self, case, R):
+        """Call history on ONE path: different topologies are written to it one after the other and each is read
+        back by path (what a reader remembers about a path must not outlive the file's content)."""
+        import os
+        from mcx.build import Scratch
+        with Scratch() as d:
+            path = os.path.join(d, 'molecule.itp')
+            for i, (n, edges, res) in enumerate(PATHSEQ):
+                text = render(n, edges, [k % 3 for k in range(len(edges))], res=res).replace('MOLX', 'MOL%d' % i)
+                with open(path, 'w') as fh:
+                    fh.write(text)
+                sigs = examine_path(path, text)
+                R.case(dict(case, step=i), nontrivial=i > 0, outcome='read-by-path', cls='same-path-rewritten')
+                for sig, det in sigs:
+                    R.violation('same-path-rewritten/' + sig, case, 'file %d of the sequence: %s' % (i, det))
+                if sigs:
+                    break
 
     def setup(self, tier, seed):
         assert itp.selftest() and en.selftest()
@@ -284,6 +310,7 @@ class C15(Check):
         elif unit['k'] == 'big':
             yield {'k': 'big', 'fam': unit['fam'], 'n': unit['n']}
         else:
+            yield {'k': 'pathseq'}
             for kind in ATTACHED:
                 yield {'k': 'attached', 'kind': kind}
             for kind in ATTACHED:
@@ -299,6 +326,9 @@ class C15(Check):
             R.case(case, nontrivial=True, outcome=outcome, cls='big/%s' % case['fam'])
             for sig, det in sigs:
                 R.violation(sig, case, det)
+            return
+        if case['k'] == 'pathseq':
+            self._pathseq(case, R)
             return
         if case['k'] == 'attached':
             kind = case['kind']
@@ -356,6 +386,31 @@ def last_occurrence_graph(parsed, numbers):
             if it[0] == 'content':
                 g.add(frozenset((pos[int(it[1][0])], pos[int(it[1][1])])))
     return g
+
+
+PATHSEQ = ((3, [(0, 1), (1, 2)], 'one'), (5, [(0, 1), (1, 2), (2, 3), (3, 4), (0, 4)], 'two'), (2, [(0, 1)], 'one'),
+           (4, [(0, 3), (1, 3), (2, 3)], 'three'), (3, [(0, 2)], 'one'), (5, [(0, 1), (1, 2), (2, 3), (3, 4), (0, 4)], 'two'))
+
+
+def examine_path(path, text):
+    """The file at `path` (holding `text`) read BY PATH with the real code, against the reference reading of text."""
+    from gaddlemaps.components import MoleculeTop
+    from gaddlemaps.parsers import read_topology
+    ref = itp.topology(itp.parse(text))
+    out = []
+    try:
+        name, atoms, bonds = read_topology(path)
+        mt = MoleculeTop(path)
+    except Exception as exc:
+        return [('error/' + type(exc).__name__, repr(exc)[:200])]
+    if name != ref.name or mt.name != ref.name:
+        out.append(('molecule-name-not-the-files', (name, mt.name, ref.name)))
+    if [tuple(a) for a in atoms] != ref.atoms or len(mt) != len(ref.atoms):
+        out.append(('atoms-not-the-files', (len(atoms), len(mt), len(ref.atoms))))
+    elif {frozenset(b) for b in bonds} != ref.graph or \
+            {frozenset((i, j)) for i, a in enumerate(mt) for j in a.bonds} != ref.graph:
+        out.append(('bond-graph-not-the-files', sorted(map(sorted, ref.graph))[:6]))
+    return out
 
 
 def examine(text, direct=False):
